@@ -254,7 +254,9 @@ fn foldsize(case: &Value, m: &mut Map<String, Value>) {
         Ok(r) => r,
         Err(e) => return res_other(m, "inadm", &e),
     };
-    let cfg = json!({"region": "us-east-1", "service": "service", "now": [735840, 45360, 0], "s3": false, "fold": true});
+    let fold = case.get("fold").and_then(|v| v.as_bool()).unwrap_or(true);
+    m.insert("fold".into(), json!(fold));
+    let cfg = json!({"region": "us-east-1", "service": "service", "now": [735840, 45360, 0], "s3": false, "fold": fold});
     let ev = crate::req::run_plain(req, &cfg);
     for k in ["res", "kind", "code", "status", "msg"] {
         m.insert(k.into(), ev.get(k).cloned().unwrap_or(json!("")));
